@@ -171,8 +171,41 @@ func runC06(r *Run) error {
 		// spawn
 		c06Spawn(r, f.pick(r.Rng), f.opts)
 	}
+	// trait lists that are not consecutive or not ascending (the library's own test genome has 1,3,2), with nodes
+	// and genes that reference them: references are by id, so the copy must resolve them by id too
+	for _, src := range []string{c06TraitsOutOfOrder, c06TraitsWithGaps} {
+		g := readPlain(src, 1)
+		f := &family{members: []*genetics.Genome{g}, env: startEnv(g), opts: randOptions(r.Rng), start: g}
+		c06One(r, o, g, f)
+		for k := 0; k < 3; k++ {
+			c, err := genetics.VDuplicate(g, 10+k)
+			if err != nil {
+				continue
+			}
+			rand.Seed(r.Rng.Int63())
+			_, _ = genetics.VMutate("node_trait", c, f.env, f.env, f.opts, 1, 3)
+			_, _ = genetics.VMutate("link_trait", c, f.env, f.env, f.opts, 1, 3)
+			if wfGenome(c) == nil {
+				c06One(r, o, c, f)
+			}
+		}
+		c06Spawn(r, g, f.opts)
+	}
 	return nil
 }
+
+const c06TraitsOutOfOrder = "genomestart 1\n" +
+	"trait 1 0.1 0 0 0 0 0 0 0\ntrait 3 0.3 0 0 0 0 0 0 0\ntrait 2 0.2 0 0 0 0 0 0 0\n" +
+	"node 1 3 1 1 NullActivation\nnode 2 2 1 3 NullActivation\nnode 3 1 0 0 SigmoidSteepenedActivation\nnode 4 2 0 2 SigmoidSteepenedActivation\n" +
+	"gene 2 1 3 0.5 false 1 0.5 true\ngene 3 3 4 1.5 false 2 1.5 false\ngene 1 2 4 0.25 false 3 0.25 true\ngene 3 4 3 -0.75 true 4 -0.75 true\n" +
+	"genomeend 1\n"
+
+const c06TraitsWithGaps = "genomestart 1\n" +
+	"trait 2 0.1 0 0 0 0 0 0 0\ntrait 5 0.3 0 0 0 0 0 0 0\ntrait 9 0.2 0 0 0 0 0 0 0\n" +
+	"node 1 9 1 1 NullActivation\nnode 2 5 1 3 NullActivation\nnode 3 2 0 0 SigmoidSteepenedActivation\nnode 4 5 0 2 SigmoidSteepenedActivation\n" +
+	"gene 5 1 3 0.5 false 1 0.5 true\ngene 9 3 4 1.5 false 2 1.5 false\ngene 2 2 4 0.25 false 3 0.25 true\n" +
+	"genomeend 1\n"
+
 
 func c06NonTrivial(g *genetics.Genome) bool {
 	if len(g.ControlGenes) > 0 {
